@@ -44,6 +44,8 @@ structure Ses where
 /-- what `receiveSession` gets from the transport -/
 inductive Recv
   | ses (s : Ses)     -- a session envelope
+  | sesGone (s : Ses) -- a session envelope, and by the time `Receive` returns the transport reports
+                      -- not connected (in-process transport whose peer closed right after sending)
   | other             -- an envelope of another kind ("unexpected envelope type")
   | fail (eof : Bool) -- a transport error: the peer went away (`eof`) or undecodable bytes / context end
   deriving Repr
@@ -114,6 +116,7 @@ def markEof (c : Cfg) (s : St) : St := if c.eofDisconnects then { s with connect
 def recvItem (c : Cfg) (s : St) (x : Recv) (r : List Recv) : Option Ses × St :=
   match x with
   | .ses y => (some y, ({ s with recvs := r }).log (.recv (.ses y)))
+  | .sesGone y => (some y, ({ s with recvs := r, connected := false }).log (.recv (.ses y)))
   | .other => (none, ({ s with recvs := r }).log (.recv .other))
   | .fail true => (none, markEof c (({ s with recvs := r }).log (.recv (.fail true))))
   | .fail false => (none, ({ s with recvs := r }).log (.recv (.fail false)))
